@@ -1,3 +1,4 @@
 import CohdlVerif.Model.DriverLoop
--- model driver of property C09 (stub: no model entry points yet)
-def main : IO Unit := CohdlVerif.driverLoop (fun _ => "bad-op")
+import CohdlVerif.Model.C09
+-- model driver of property C09:  `bin <op> <a> <b>` | `un <op> <a>` | `par <op> <a> <p1> <p2>` | `binold <op> <a> <b>`
+def main : IO Unit := CohdlVerif.driverLoop CohdlVerif.C09.handle
